@@ -7,11 +7,15 @@ CONSTANTS
   DevStderrToFd1 = FALSE
   DevValidateLate = FALSE
   DevIndexCountsSkipped = FALSE
+  DevBreakEndsFileOnly = FALSE
 INVARIANT FaultIsError
 INVARIANT ReadFaultFinal
 INVARIANT WritePrefix
 INVARIANT StreamingPrefix
 INVARIANT Indices
+INVARIANT MergeOut
+INVARIANT BreakEndsReading
+INVARIANT FilesSeparate
 INVARIANT RejectBeforeIO
 INVARIANT ExitStatus
 INVARIANT Streams
